@@ -340,10 +340,10 @@ def expectColour (rgb8 : Bool) (o : Option Colour) : Colr :=
 def expectFont (v : Int) : Nat := if 1 ≤ v ∧ v ≤ 9 then v.toNat else 0
 
 def expectSizepos (v : Int) : SizePos :=
-  if v = 0 then .normal
-  else if v = Tickit.Gen.Sgr.sizeposSuperscript then .super
+  if v = Tickit.Gen.Sgr.sizeposSuperscript then .super
   else if v = Tickit.Gen.Sgr.sizeposSubscript then .sub
-  else .small
+  else if v = Tickit.Gen.Sgr.sizeposSmall then .small
+  else .normal
 
 /-- The rendering attributes a (palette-converted) pen asks for; an absent attribute asks for the default. -/
 def expectAttrs (caps : Caps) (p : Pen) : Attrs :=
